@@ -65,6 +65,14 @@ class TranslatorPython(Translator):
                     args[0],
                     (1 << expr.size) - 1
                 )
+            elif expr.op == "<<" and len(args) == 2:
+                # A shift of the whole width or more gives 0 (and Python
+                # would build the huge intermediate integer)
+                return "(((%s << %s) & 0x%x) if %s < %d else 0)" % (
+                    args[0], args[1],
+                    (1 << expr.size) - 1,
+                    args[1], expr.size
+                )
             else:
                 # Integer division ("/" is the float division in Python 3)
                 operator = "//" if expr.op == "/" else expr.op
